@@ -35,16 +35,16 @@ def plan_list(tier):
     out.extend([["44", "44", "44", "44"], ["34", "68", "44", "44"], ["58", "58", "34", "34"], ["44", "34", "34", "58"],
                 ["38", "38", "38", "38"], ["68", "38", "68", "38"]])
     if tier != "quick":
-        out.extend(list(p) for p in itertools.product(names, repeat=4))
+        out.extend(list(p) for p in itertools.product(names[:3], repeat=4))
         out.extend([["44"] * 5, ["34", "34", "44", "44", "58"], ["44"] * 6, ["58", "34", "68", "44", "34", "58"]])
     return out
 
 
 def context(tier, seed):
     return {"tier": tier, "p": [60, 40, 96][seed % 3],     # p-12 .. p+1 stays inside the default pitch range
-            "flagsets": [FL[0], FL[15], FL[5], FL[2]] if tier == "quick" else FL,
+            "flagsets": [FL[0], FL[15], FL[5], FL[2]] if tier == "quick" else FL[::2] + [FL[15]],
             "bounds": {"plans": len(plan_list(tier)), "max_bars": 4 if tier == "quick" else 6,
-                       "flag_sets": 4 if tier == "quick" else 16, "partitions_per_piece": "all 2^(n-1)"}}
+                       "flag_sets": 4 if tier == "quick" else 9, "partitions_per_piece": "all 2^(n-1)"}}
 
 
 def units(ctx):
@@ -66,6 +66,8 @@ def gen_cases(unit, ctx):
     sets = [[]] + [[a] for a in al] + [list(c) for c in itertools.combinations(al[::2], 2) if lib.well_formed(c)]
     if len(plan) > 4 or (ctx["tier"] == "quick" and len(plan) >= 3):
         sets = sets[:1] + sets[1::3]
+    elif len(plan) == 4:
+        sets = sets[:1] + sets[1::2]
     sides = [None, [], [(6, 12, p - 12, 0, 5)], [(st[-1] - 12, 12, p - 12, 0, 33)]]
     for ns in sets[unit[1]::4]:
         for side in sides:
